@@ -62,6 +62,12 @@ def _gen_new(rng, cfg):
     raise ValueError(kind)
 
 
+# how the caller writes the reassignment: `g.points = new_array`; the augmented form `g.points += delta` (Python reads the
+# property, NumPy updates that array in place, and the setter then receives the very object the grid already holds); or
+# `p = g.points; p[...] = values; g.points = p`.  All three go through the setter, so all three are reassignments.
+SET_STYLES = ["new", "new", "new", "augmented", "same_object"]
+
+
 def _gen_op(rng, cfg):
     kinds = cfg["ops"]
     k = rng.choices([x for x, _ in kinds], weights=[w for _, w in kinds])[0]
@@ -73,9 +79,9 @@ def _gen_op(rng, cfg):
     if k == "requery":
         return ["requery", h]
     if k == "set_points":
-        return ["set_points", h, rng.choices(SET_KINDS, weights=[3, 2, 2, 2, 1, 0.5])[0], rng.randrange(10**6)]
+        return ["set_points", h, rng.choices(SET_KINDS, weights=[3, 2, 2, 2, 1, 0.5])[0], rng.randrange(10**6), rng.choice(SET_STYLES)]
     if k == "set_weights":
-        return ["set_weights", h, rng.choices(SET_KINDS, weights=[1, 3, 2, 2, 1, 0.5])[0], rng.randrange(10**6)]
+        return ["set_weights", h, rng.choices(SET_KINDS, weights=[1, 3, 2, 2, 1, 0.5])[0], rng.randrange(10**6), rng.choice(SET_STYLES)]
     if k == "select":
         return ["select", h, rng.choice(INDEX_KINDS), rng.randrange(10**6)]
     if k == "local_of":
@@ -511,7 +517,8 @@ def _new_values(old, how, seed, is_points, domain=None):
 
 
 def _op_set(ctx, op):
-    name, h, how, seed = op
+    name, h, how, seed = op[:4]
+    style = op[4] if len(op) > 4 else "new"
     is_points = name == "set_points"
     o = ctx.pick(h, QUERYABLE + ("periodic",))
     if o is None:
@@ -523,10 +530,31 @@ def _op_set(ctx, op):
     val = _new_values(before_p if is_points else before_w, how, seed, is_points, o.meta.get("domain"))
     attr = "points" if is_points else "weights"
 
+    if style != "new" and how != "badshape":
+        # the in-place forms touch the array the grid holds: only when no other live object (a slice selection is a view,
+        # a whole-grid local grid may be one) shares that memory - editing shared memory is the caller's own doing
+        cur0 = getattr(o.g, attr, None)
+        ok = isinstance(cur0, np.ndarray) and cur0.flags.writeable and cur0.shape == np.shape(val) and not _shared_elsewhere(ctx, o, cur0, attr)
+        if ok and np.can_cast(np.asarray(val).dtype, cur0.dtype, casting="same_kind"):
+            ctx.probes.hit("reassignment-style:" + style)
+        else:
+            style = "new"
+
     def assign():
-        setattr(o.g, attr, val)
+        if style == "augmented":
+            tmp = getattr(o.g, attr)
+            tmp += np.asarray(val) - tmp  # in place ...
+            setattr(o.g, attr, tmp)  # ... then the setter, which is what `g.attr += delta` does
+        elif style == "same_object":
+            tmp = getattr(o.g, attr)
+            tmp[...] = val
+            setattr(o.g, attr, tmp)
+        else:
+            setattr(o.g, attr, val)
 
     oc = _outcome(assign)
+    if style != "new" and oc[0] == "ok":
+        val = np.array(getattr(o.g, attr))  # (the augmented form may differ from `val` by a rounding error)
     after_p, after_w = _model(o)
     if how == "badshape" or oc[0] == "raise":
         # a rejected assignment (wrong shape, or a class without a setter) must change nothing
@@ -552,6 +580,21 @@ def _op_set(ctx, op):
     o.failed_last = False
     ctx.probes.hit(f"reassigned:{attr}:tree-{_tree_state(o)}")
     ctx.log.add(ctx.step, name, o.kind, how, "ok", hash_array(cur))
+
+
+def _shared_elsewhere(ctx, o, arr, attr):
+    others = []
+    for o2 in ctx.objs:
+        for a in ("_points", "_weights", "points", "weights", "indices"):
+            if o2 is o and a.lstrip("_") == attr:
+                continue
+            try:
+                others.append(getattr(o2.g, a, None))
+            except Exception:  # noqa: BLE001
+                pass
+        if o2.held is not None:
+            others += [getattr(o2.held[0], a, None) for a in ("_points", "_weights", "points", "weights")]
+    return any(isinstance(x, np.ndarray) and np.may_share_memory(arr, x) for x in others)
 
 
 def _make_index(ikind, n, seed):
@@ -690,7 +733,7 @@ class GridHistoryEngine:
     ASSUMPTIONS = [
         "model = the (points, weights) read back through the public properties after each accepted assignment",
         "points whose distance differs from the radius by <= 1e-9*max(1,r) are don't-care (k-d tree vs brute force rounding), except exact zero distance",
-        "in-place mutation of the points array by the caller is not a 'reassignment' and is not generated",
+        "in-place mutation of the points array by the caller without a following assignment through the setter is not a reassignment and is not generated (the augmented forms g.points += d and p = g.points; p[...] = v; g.points = p are)",
         "empty selections are not generated (the property does not say what they return)",
         "a clean batch is sampling evidence, not proof",
     ]
@@ -779,7 +822,9 @@ def _simpler(op):
         if op[3] not in ("q50", "inf"):
             yield ["query", op[1], op[2], "q50", op[4]]
     if k in ("set_points", "set_weights") and op[2] not in ("translate", "badshape"):
-        yield [k, op[1], "translate", op[3]]
+        yield [k, op[1], "translate"] + list(op[3:])
+    if k in ("set_points", "set_weights") and len(op) > 4 and op[4] != "new":
+        yield list(op[:4]) + ["new"]
     if k == "select" and op[2] not in ("int",):
         yield ["select", op[1], "int", op[3]]
 
